@@ -540,6 +540,9 @@ class BaseCurve(Intface_BaseCurve):
         if oldctrlpoints is None and oldweights is None:
             self.knotvector = newknotvector
             return
+        newknotvector = KnotVector(newknotvector)
+        if len(matrix) != newknotvector.npts:
+            raise ValueError("The transformation doesn't match the knotvector")
         self.ctrlpoints = None
         self.weights = None
         self.knotvector = newknotvector
